@@ -495,6 +495,12 @@ def run_scenario(sc, scdir, refs):
 
 
 # ============================================================================ generation
+# spellings of the output file name for runs through the command-line entry, which derives
+# the name of its log file from it ("<stem>.log" next to the output): no suffix, several
+# dots, a blank, upper case, a second suffix, and names whose derived log name is the
+# output path itself
+OUT_NAMES = ("out.pqr", "result", "a.b.pqr", "x y.pqr", "OUT.PQR", "out.pqr.txt", "run.log")
+
 def _pre_cycle(i, prev_cfg):
     return ["absent", "sentinel", {"run": prev_cfg}][i % 3]
 
@@ -514,8 +520,7 @@ def build_scenarios(cfg, prof, seed, tier, prev_cfg):
         one = {"tag": tag, "pre": pre if pre is not None else _pre_cycle(k, prev_cfg),
                "runs": runs}
         if any(r.get("entry") in ("cli", "cli_module") for r in runs):
-            one["out_name"] = ("out.pqr", "result", "a.b.pqr", "x y.pqr", "OUT.PQR",
-                               "out.pqr.txt")[k % 6]
+            one["out_name"] = OUT_NAMES[k % len(OUT_NAMES)]
         sc.append(one)
         k += 1
 
@@ -974,8 +979,7 @@ def trigger_scenarios(quick=False):
                 if lvl:
                     run["cli_extra"] = ["--log-level", lvl]
                 # the CLI derives a log-file name from the output path: vary its spelling
-                sc["out_name"] = ("out.pqr", "result", "a.b.pqr", "x y.pqr", "OUT.PQR",
-                                  "out.pqr.txt")[(k + pi) % 6]
+                sc["out_name"] = OUT_NAMES[(k + pi) % len(OUT_NAMES)]
             T.append(sc)
 
     # unreadable or empty input
